@@ -114,6 +114,21 @@ def cases(tier, seed):
             ins = [[[i, j, 1, v] for i, j, v in px] for px in ins]
         yield "mg.merge", {"table": table, "mode": "symm", "inputs": ins, "cols": cols3, "aggs": ["sum"] * len(cols3), "bits": bits,
                            "unsigned": unsigned, "buf": rng.choice([1, 3, 10 ** 6]), "order": list(range(k))}
+    # (3b) a value column handed in as one integer dtype and stored as another: same width with the other signedness, narrower,
+    # wider - values at both ends of both ranges
+    RNG = {"int8": (-128, 127), "uint8": (0, 255), "int16": (-32768, 32767), "uint16": (0, 65535), "int32": (-2 ** 31, 2 ** 31 - 1)}
+    for h in range(120 if tier == "quick" else 1500):
+        ind = ["int8", "uint8", "int16", "uint16", "int32"][h % 5]
+        outd = ["int8", "uint8", "int16", "uint16"][(h // 5) % 4]
+        lo, hi = RNG[ind]
+        olo, ohi = RNG[outd]
+        cand = [v for v in (lo, lo + 1, -1, 0, 1, olo - 1, olo, ohi, ohi + 1, hi - 1, hi, 5) if lo <= v <= hi and -2 ** 31 < v < 2 ** 31 - 1]
+        pos = gen.positions(3, "symm")
+        k = rng.randint(1, len(pos))
+        vals = [rng.choice(cand) if rng.random() < 0.5 else rng.choice([1, 2, 5]) for _ in range(k)]
+        vals = [v if lo <= v <= hi else 1 for v in vals]
+        yield "mg.fits", {"px": [[i, j, v] for (i, j), v in zip(pos[:k], vals)], "in_dtype": ind, "out_dtype": outd,
+                          "bits": 8 if outd.endswith("8") else 16, "unsigned": outd.startswith("u"), "form": ["frame", "dict"][h % 2]}
     # (4) incompatible inputs of every kind
     base = T["two_fixed"]
     nm2 = ["a", "b", "c", "d", "e"]
@@ -126,6 +141,13 @@ def cases(tier, seed):
         "variable_nbins": ([T["variable"], gen.table_from_edges([[0, 1, 2, 4], [0, 3, 5]])], ["symm", "symm"], [nm2, nm2]),
         "fixed_vs_variable": ([gen.binnify([4, 5], 2), gen.table_from_edges([[0, 1, 4], [0, 3, 5]])], ["symm", "symm"], [nm2, nm2]),
         "variable_vs_fixed": ([gen.table_from_edges([[0, 1, 4], [0, 3, 5]]), gen.binnify([4, 5], 2)], ["square", "square"], [nm2, nm2]),
+        # a variable-width table AFTER a fixed-width one with the same chromosomes and the same NUMBER of bins
+        "fixed_then_variable_same_count": ([gen.binnify([4, 4], 2), gen.table_from_edges([[0, 1, 4], [0, 3, 4]])], ["symm", "symm"], [nm2, nm2]),
+        "fixed_variable_fixed": ([gen.binnify([4, 4], 2), gen.table_from_edges([[0, 1, 4], [0, 3, 4]]), gen.binnify([4, 4], 2)],
+                                 ["symm", "symm", "symm"], [nm2, nm2, nm2]),
+        # variable-width inputs that differ in storage mode only, in both orders
+        "variable_modes_sq_first": ([T["variable"], T["variable"]], ["square", "symm"], [nm2, nm2]),
+        "variable_modes_symm_first": ([T["variable"], T["variable"]], ["symm", "square"], [nm2, nm2]),
         "third_differs": ([base, base, gen.binnify([4, 4], 4)], ["symm", "symm", "symm"], [nm2, nm2, nm2]),
         # same names and lengths, listed in a different order: different bin tables
         "chrom_order": ([gen.binnify([4, 6], 2), gen.binnify([6, 4], 2)], ["symm", "symm"], [["a", "b", "c"], ["b", "a", "c"]]),
@@ -149,6 +171,8 @@ def nontrivial(drv, case, obs):
         return sum(len(p) for p in case["inputs"]) > 0
     if drv == "mg.breakpoints":
         return case["idx"][0][-1] > 0
+    if drv == "mg.fits":
+        return True
     return True
 
 
